@@ -17,12 +17,16 @@ from .ctx import Ctx, HarnessError, h64, jdump
 VERIF = build.VERIF
 
 
+def _evidence_dir():
+    return os.environ.get("VERIF_EVIDENCE_DIR") or os.path.join(VERIF, "evidence")
+
+
 def _evidence_path(prop):
-    return os.path.join(VERIF, "evidence", "%s.json" % prop)
+    return os.path.join(_evidence_dir(), "%s.json" % prop)
 
 
 def write_evidence(prop, meta, tier, seed, cov, wall, violations, extra_assumptions=()):
-    os.makedirs(os.path.join(VERIF, "evidence"), exist_ok=True)
+    os.makedirs(_evidence_dir(), exist_ok=True)
     ev = dict(
         property_id=prop,
         tier=tier,
@@ -133,6 +137,12 @@ def main(argv=None):
         if a.replay:
             return run_replay(prop, mod, a.replay, a.tier, seed)
 
+        if hasattr(mod, "prepare"):
+            try:
+                mod.prepare()
+            except HarnessError as e:
+                print("HARNESS-ERROR property=%s %s" % (prop, e))
+                return 2
         nshards = min(a.shards, meta.get("max_shards", 64))
         for i in range(nshards):
             log = open(os.path.join(scratch, "log%02d" % i), "w")
